@@ -139,7 +139,7 @@ def _run_batch(cmds, cwd, hashseed):
     env['PYTHONPATH'] = repo + os.pathsep + VERIF_DIR
     env['PYTHONHASHSEED'] = str(hashseed)
     env['PYTHONWARNINGS'] = 'ignore'
-    p = subprocess.run([sys.executable, '-m', 'vlib.batch_runner'], input=json.dumps(cmds), text=True,
+    p = subprocess.run([sys.executable] + (['-O'] if sys.flags.optimize else []) + ['-m', 'vlib.batch_runner'], input=json.dumps(cmds), text=True,
                        stdout=subprocess.PIPE, stderr=subprocess.PIPE, cwd=cwd, env=env, timeout=600)
     if p.returncode != 0:
         raise RuntimeError("batch runner failed: " + p.stderr[-2000:])
